@@ -212,7 +212,8 @@ PROPS["C01"] = dict(
           corpus("exits", PY311, "py311", True), g1("suspended", PY310, "py310", vendor=True),
           g1("suspended", PY39, "py39", thorough_only=True, vendor=True), g1("suspended", PY312, "py312", 3, True, stride=40)],
     technique=BOUNDED_TECH + "; sub-lemmas (varint / exception-table decoding, handler-chain walk, the join of block stack and "
-              "with-statement table in _contexts_active_by_trickery) discharged deductively",
+              "with-statement table in _contexts_active_by_trickery, the three closures of currently_exiting_context, the interpreter "
+              "dispatch of inspect_frame) discharged deductively",
     explanation="Deductive sub-lemmas reported alongside the bounded stand-in (they do not make the property proved): _parse_varint and _parse_exception_table decode exactly the spec function of the 3.11+ table format for all byte strings; inspect_frame's handler-chain walk returns the outside-in chain of handlers covering f_lasti (relative to sorted, disjoint table entries); analyze_with_blocks returns a FRESH dict of FRESH Context templates that are obj-less and not exiting (3.12 and 3.10 configurations of the source); the 3.9/3.10 inspect_frame's block-stack walk (statements selected by pattern, 3.10 configuration) records exactly the SETUP_FINALLY entries among the first f_iblock block-stack entries, in order, each at position = number of such entries before it, handler scaled to bytes, level copied, reading no entry at or above f_iblock; _contexts_active_by_trickery joins them correctly: entry j of the result is the j-th block of the block stack whose handler is a key of the table, no such block is dropped or reordered, its obj is the __self__ of the stack slot just below the block's level, is_async / start_line are the table's, and the entry for a context whose exit is in progress is appended last with is_exiting. NOT decided deductively: which with statement a handler offset belongs to and where an exit call sits in the bytecode (analyze_with_blocks' layout knowledge, currently_exiting_context): the CPython compiler is not formalised; the G1 legs decide it. Two closures of currently_exiting_context (3.11+ branch) are under contract as well: innermost_with_handler(at) returns (depth, target) of the FIRST entry on the exception table's handler chain from `at` (at each hop the first entry covering the current offset) whose handler starts with PUSH_EXC_INFO; WITH_EXCEPT_START, None if the chain leaves the table first (C02.handler_chain.*); predecessors(of) returns exactly the instructions that fall through to `of` (CACHE entries skipped, never-falling-through opnames excluded) or jump to it, in instruction order, none twice (C02.predecessors.*). That the sequence matched before them IS an exit call and the choice among candidates stay with the bounded legs.",
     claim="Bounded stand-in: at every suspension point of every program of the family, Frame.contexts equals the shadow log (identity of obj, "
           "is_async, is_exiting on exactly the exiting one) with no InspectionWarning; plus every exit site of the running interpreter's "
@@ -230,7 +231,8 @@ PROPS["C02"] = dict(
                                              g1("running", PY310, "py310", vendor=True),
                                              g1("running", PY39, "py39", thorough_only=True, vendor=True),
                                              g1("running", PY312, "py312", 3, True, stride=40)],
-    technique=BOUNDED_TECH,
+    technique=BOUNDED_TECH + "; sub-lemmas (stack trimming of running frames in both frame readers, f_stacktop on 3.10, the closures "
+              "innermost_with_handler / predecessors / backtrack_over_load_none of currently_exiting_context) discharged deductively",
     explanation='Deductive sub-lemma: inside inspect_frame (3.11+), a frame that is executing (stacktop == -1) has its value stack cut to the depth of the FIRST exception-table entry covering f_lasti, computed in the same validated attempt, 0 if none covers it (C02.trim, C02.first_covering_entry_scan); on 3.9/3.10 (statements selected by pattern from the other inspect_frame, 3.10 configuration) a running frame\'s raw stack is cut to the deepest level any recorded block needs (0 without blocks) before any slot is turned into an object reference, NULL slots become None, and a suspended frame\'s slots are looked up among the frame\'s gc referents by address (never cast), None when no referent lives there; Because every frame inward of a re-entrant extraction gets its contexts only if the per-thread options survive it, ExtractOptions.push (restores both fields on every exit) and the options leg run here too. c02_exit_names: the exiting manager is identified whatever its exit function is called (aliased, decorated with an explicit self, inherited, lambda, async alias) for every way of leaving the block; everything else is the bounded stand-in. Two closures of currently_exiting_context (3.11+ branch) are under contract as well: innermost_with_handler(at) returns (depth, target) of the FIRST entry on the exception table\'s handler chain from `at` (at each hop the first entry covering the current offset) whose handler starts with PUSH_EXC_INFO; WITH_EXCEPT_START, None if the chain leaves the table first (C02.handler_chain.*); predecessors(of) returns exactly the instructions that fall through to `of` (CACHE entries skipped, never-falling-through opnames excluded) or jump to it, in instruction order, none twice (C02.predecessors.*). That the sequence matched before them IS an exit call and the choice among candidates stay with the bounded legs.',
     claim="Bounded stand-in: the same family probed from inside every __enter__/__exit__/__aenter__/__aexit__ invocation and every body call "
           "of running coroutines, generators and async generators (extract_since on the running frame): a manager being entered is not yet "
